@@ -218,7 +218,8 @@ def run(ctx):
             calls = {s[1] for s in src if s[0] == 'call'}
             consts = {s[1] for s in src if s[0] == 'const'}
             bins = {s[1] for s in src if s[0] == 'bin'}
-            ok = any(f.endswith('.wait') for f in fields) and zero_duration_test(src) and 'false' in consts
+            # (`None => false` is decided below by where the None arm leads: to the waiting acquire, not to try_acquire)
+            ok = any(f.endswith('.wait') for f in fields) and zero_duration_test({s_ for s_ in src if not (s_[0] == 'const' and s_[1] in ('false', 'true'))})
             ctx.ob('R10.1', 'non-blocking = wait is Some(d) and d.as_nanos() == 0', ok, ctx.where(root, sw.term.line),
                    'test built from fields %s, calls %s, constants %s, operators %s' % (sorted(fields), sorted(calls), sorted(consts), sorted(bins)), construct='nonblocking:test',
                    sites=sorted(calls) + sorted(consts))
@@ -230,6 +231,15 @@ def run(ctx):
             ctx.ob('R10.1', 'non-blocking get reaches the idle queue without a suspension point', not ys, ctx.where(root, sw.term.line), 'yield at %s' % ys, construct='nonblocking:no-wait')
             reach_f = an.reach([arms['false']], ('normal',), avoid=pops + [arms['true']])
             ctx.ob('R10.1', 'blocking get waits under apply_timeout', ats[0].idx in reach_f and tacq[0].idx not in reach_f, ctx.where(root, ats[0].term.line), '', construct='blocking:apply_timeout')
+            # no wait timeout at all (None) is the blocking mode
+            wsw = [blk for blk in root.blocks if blk.term.kind == 'switch' and blk.term.j.get('adt') == 'std::option::Option' and 'on' in blk.term.j and not blk.cleanup and
+                   any(s_[0] == 'field' and s_[1].endswith('Timeouts.wait') for s_ in sources(an, Operand({'c': blk.term.j['on']}))) and an.dominates(blk.idx, tacq[0].idx)]
+            if wsw:
+                warms = dict(wsw[0].term.switch_arms())
+                rn = an.reach([warms['None']], ('normal',), avoid=[warms.get('Some')] + pops) if 'None' in warms else set()
+                ctx.ob('R10.1', 'without a wait timeout the get waits (never the non-blocking attempt)', tacq[0].idx not in rn and ats[0].idx in rn, ctx.where(root, wsw[0].term.line), '', construct='nonblocking:none-blocks')
+            else:
+                ctx.undecide('R10.1', 'test of timeouts.wait for None not found')
 
     # ---- R10.2 apply_timeout decision table --------------------------------------------------------------
     at = r.TIMEOUT_WRAPPER
@@ -339,7 +349,7 @@ def run(ctx):
                 okh = any(x[0] == 'upvar' and x[1].split('.')[0] in own_names for x in src) and not any(x[0] == 'field' and x[1].endswith('PoolConfig.timeouts') for x in src)
                 ctx.ob('R10.3', '%s receives the per-call timeouts of this call' % cb_.name.split('::')[-1], okh, ctx.where(top, blk.term.line),
                        'argument from %s' % sorted({str(x[1]) for x in src if x[0] in ('upvar', 'field')}), construct='per-call-timeouts:' + cb_.name.split('::')[-1])
-    ctx.floor('R10.3', 'helpers of the getter taking &Timeouts', n_hand, 1)
+    ctx.count('helpers_taking_timeouts', n_hand)     # 0 when the helpers take the single durations (then the pairing rule above follows them)
     ctx.ob('R10.3', 'exactly one apply_timeout site per timeout kind', seen_tt == {'Wait': 1, 'Create': 1, 'Recycle': 1}, '', str(seen_tt), construct='apply_timeout-sites')
 
     # ---- R10.6 error discipline ------------------------------------------------------------------------------------
